@@ -203,34 +203,55 @@ fn structured(fmt: &str, rng: &mut Rng, quick: bool) -> Vec<(String, Vec<u8>)> {
     v
 }
 
-/// Inputs too large to list byte by byte: a pattern repeated to n bytes (run = pattern of one byte).  Lengths sit
+/// Inputs too large to list byte by byte, given by their shape: head bytes, a pattern repeated (run = pattern of one
+/// byte), tail bytes; n bytes in total.  Lengths sit
 /// around the size boundaries of the formats: third header byte becoming non-zero (0xFFFF..0x10001), the longest
 /// LZ11 reference (0x10110 bytes after the two leading literals of a run), and the largest input the 24-bit
 /// length field can announce (16 MiB - 1).  Patterns are chosen so that compression stays linear in n
 /// (a run for LZ10; one period of 4096 noise bytes where the LZ13 header computation would be quadratic on a run).
-fn big_inputs(fmt: &str, rng: &mut Rng) -> Vec<(String, Vec<u8>, usize)> {
-    let mut v = Vec::new();
+fn big_inputs(fmt: &str, rng: &mut Rng, quick: bool) -> Vec<Value> {
+    let mut v: Vec<Value> = Vec::new();
+    let mut put = |tag: &str, head: &[u8], pat: &[u8], tail: &[u8], n: usize| {
+        v.push(json!({"fmt": fmt, "tag": tag, "head": bytes_to_json(head), "pat": bytes_to_json(pat), "tail": bytes_to_json(tail), "n": n}));
+    };
     for n in [0xFFFF, 0x10000, 0x10001, 2 + 0x10110, 2 + 0x10111, 70_000, 0x20000, 140_000] {
-        v.push(("bigrun".to_string(), vec![b'z'], n));
+        put("bigrun", &[], &[b'z'], &[], n);
     }
     for p in [3usize, 17] {
         let pat = rng.bytes(p);
         for n in [70_000, p + 2 + 0x10111] {
-            v.push((format!("bigper{}", p), pat.clone(), n));
+            put(&format!("bigper{}", p), &[], &pat, &[], n);
         }
     }
     let pat = rng.bytes(4096);
     for n in [0x10000, 0x10001, 140_000] {
-        v.push(("bigper4096".to_string(), pat.clone(), n));
+        put("bigper4096", &[], &pat, &[], n);
     }
+    // the largest input the 24-bit length field can announce, and one less
+    let top = [0xFFFFFEusize, 0xFFFFFF];
     if fmt == "lz13" {
-        for n in [0xFFFFFE, 0xFFFFFF] {
-            v.push(("bigper4096".to_string(), pat.clone(), n));
+        for n in top {
+            put("bigper4096", &[], &pat, &[], n);
+        }
+    } else {
+        for n in top {
+            put("bigrun", &[], &[0u8], &[], n);
         }
     }
-    if fmt == "lz10" {
-        for n in [0xFFFFFE, 0xFFFFFF] {
-            v.push(("bigrun".to_string(), vec![0u8], n));
+    // long compressible body followed by an incompressible tail, and the mirrored shape (incompressible head, then the
+    // body): compression ratio not maximal at the end / at the start.  At ~70 000 bytes for both formats; at the 24-bit
+    // boundary for LZ13 always (a few thousand tokens) and for LZ10 in the thorough tier (a million tokens each).
+    let mut sizes = vec![70_000usize];
+    if fmt == "lz13" || !quick {
+        sizes.extend_from_slice(&top);
+    }
+    for &n in &sizes {
+        for (body, tag) in [(vec![0u8], "run"), (pat.clone(), "per4096")] {
+            for t in [16usize, 300] {
+                let edge = rng.bytes(t);
+                put(&format!("big{}+tail", tag), &[], &body, &edge, n);
+                put(&format!("bighead+{}", tag), &edge, &body, &[], n);
+            }
         }
     }
     v
@@ -285,8 +306,8 @@ fn cmd_inputs(fmt: &str, path: &str, extra: Option<&str>) {
     for (tag, input) in v {
         w.put(&json!({"fmt": fmt, "tag": tag, "input": bytes_to_json(&input)}));
     }
-    for (tag, pat, n) in big_inputs(fmt, &mut rng) {
-        w.put(&json!({"fmt": fmt, "tag": tag, "pat": bytes_to_json(&pat), "n": n}));
+    for c in big_inputs(fmt, &mut rng, quick) {
+        w.put(&c);
     }
     w.finish();
 }
@@ -307,8 +328,11 @@ fn cmd_comp(cases_path: &str, out_path: &str, from: usize) {
         if c.get("pat").is_some() {
             // input given by its generator: the event carries (pat, n), the whole stream, and whether mila's own
             // decompression of it returned the input (compared here: the input is not listed)
-            let pat = json_to_bytes(&c["pat"]);
-            let input = periodic(&pat, c["n"].as_u64().unwrap() as usize);
+            let (head, pat, tail) = (json_to_bytes(&c["head"]), json_to_bytes(&c["pat"]), json_to_bytes(&c["tail"]));
+            let n = c["n"].as_u64().unwrap() as usize;
+            let mut input = head.clone();
+            input.extend(periodic(&pat, n - head.len() - tail.len()));
+            input.extend_from_slice(&tail);
             let r = compress(entry, &input);
             let rt = match &r {
                 Ok(Ok(s)) => match decompress(entry, s) {
@@ -318,7 +342,8 @@ fn cmd_comp(cases_path: &str, out_path: &str, from: usize) {
                 },
                 _ => json!({"kind": "none", "same": false, "len": 0, "msg": ""}),
             };
-            return json!({"kind": "bigcomp", "fmt": fmt, "tag": c["tag"], "pat": c["pat"], "n": c["n"], "res": res_json(r), "rt": rt});
+            return json!({"kind": "bigcomp", "fmt": fmt, "tag": c["tag"], "head": c["head"], "pat": c["pat"], "tail": c["tail"], "n": c["n"],
+                          "res": res_json(r), "rt": rt});
         }
         let input = json_to_bytes(&c["input"]);
         let r = compress(entry, &input);
